@@ -12,6 +12,7 @@ CONSTANTS
   Policy = "rr"
   Selectors = {"s1", "s2"}
   MaxSel = 2
+  TornDraw = FALSE
   Kinds = {"add", "remove", "existing", "replace", "mark"}
 VIEW BGenView
 ACTION_CONSTRAINT BEmit
